@@ -1,7 +1,7 @@
 #!/usr/bin/env bash
 # try_seed.sh <patch.diff> <ID> [<ID>...]  -- apply a seeded change to /repo, run the quick checks, undo it.
 set -u
-P="$1"; shift
+P="$(realpath "$1")"; shift
 cd /repo || exit 2
 if [ -n "$(git status --porcelain --untracked-files=no)" ]; then echo "try_seed: /repo has uncommitted tracked changes; refusing"; exit 2; fi
 if ! git apply --check "$P"; then echo "try_seed: patch does not apply"; exit 2; fi
